@@ -148,4 +148,21 @@ PROPS = {
                  thorough=dict(checks=96, shards=8, budget_s=2400, shrink="2m")),
         ],
     ),
+    "C18": dict(
+        level="exploration",
+        text="Model-based exploration: (A) one real node receives generated delivery orders of advertisements and withdrawals (any order, link, duplication) and its listing is compared "
+             "after every delivery with a model that keeps the newest message per service; (B) real meshes with cycles run generated histories of advertised listeners opened and closed, "
+             "with late joiners, and every node's listing must converge to exactly the open advertised services with type and tags.",
+        note="Trusted: the reference model (greatest timestamp per key); ordered in-memory links in (B). Histories in (B) contain no link cuts or node stops (the quantifier lists neither).",
+        technique="model-based property testing (rapid): generated delivery orders against a newest-timestamp model; generated listener histories on real meshes against the set of open services",
+        assumptions=["an advertisement and a withdrawal of the same service never carry the same timestamp", "convergence deadline: 40 advertisement periods + 8 s"],
+        parts=[
+            part("model", "netprops", "TestC18", "C18",
+                 quick=dict(checks=240, shards=8, budget_s=300),
+                 thorough=dict(checks=6000, shards=12, budget_s=3000, shrink="2m")),
+            part("mesh", "netprops", "TestC18Mesh", "C18.mesh",
+                 quick=dict(checks=24, shards=8, budget_s=400),
+                 thorough=dict(checks=400, shards=12, budget_s=3300, shrink="3m")),
+        ],
+    ),
 }
